@@ -65,6 +65,10 @@ func NewSet(name string, loaders ...TemplateLoader) *TemplateSet {
 		panic(fmt.Errorf("at least one template loader must be specified"))
 	}
 
+	// The set keeps its own list: the caller's slice (NewSet(name, ls...))
+	// may be used for other sets, which add loaders of their own.
+	loaders = append([]TemplateLoader(nil), loaders...)
+
 	return &TemplateSet{
 		name:          name,
 		loaders:       loaders,
